@@ -973,6 +973,15 @@ func TestCheck(t *testing.T) {
 			}
 		}
 	}
+	if !run.Thorough() {
+		// the largest page size (the boundary of every page-size test) with the two spilling shapes; thorough has all shapes there
+		for _, tx := range []pager.RTx{
+			{Mods: []uint32{2, 3}, SpillAfter: []int{1}, Final: "PERSIST", Outcome: "commit"},
+			{Mods: []uint32{2, 3}, SpillAfter: []int{1, 2}, NewSize: 5, Final: "TRUNCATE", Outcome: "commit"},
+		} {
+			cases = append(cases, Case{Kind: "journal", PageSize: 65536, Sector: 512, Start: 3, Tx: tx, Mode: "legit", Only: -1})
+		}
+	}
 	// The very first transaction of a database (created from nothing), incl. a cache spill.
 	for _, g := range geos {
 		for _, tx := range []pager.RTx{
@@ -985,6 +994,8 @@ func TestCheck(t *testing.T) {
 	w := func(frames []uint32, ns uint32, outcome string, be bool) prog.Op {
 		return prog.Op{Kind: "wtx", W: &pager.WTx{Frames: frames, NewSize: ns, Outcome: outcome, BigEndianCksum: be}}
 	}
+	// the largest page size: two transactions in the log, the older one only there
+	cases = append(cases, Case{Kind: "wal", PageSize: 65536, Start: 3, Mode: "mut", Only: -1, WOps: []prog.Op{w([]uint32{1, 2}, 0, "commit", false), w([]uint32{3}, 0, "commit", false)}})
 	for _, ps := range []int{512, 4096} {
 		for _, be := range []bool{false, true} {
 			cases = append(cases,
